@@ -99,7 +99,7 @@ impl C19 {
         if !c.instantiate(&cfg).is_ok() {
             return false;
         }
-        let versions = ["0.13.4", "0.13.0", "0.10.3", "0.9.1", "0.13.2", "0.7.0", "0.2.3", "0.1.0"];
+        let versions = ["0.13.4", "0.13.0", "0.10.3", "0.9.1", "0.13.2", "0.7.0", "0.2.3", "0.1.0", "0.12.0-alpha1", "0.10.0-soon4", "0.13.0-rc.2"];
         let v = *h.rng.pick(&versions);
         cw2::set_contract_version(&mut c.w.store, "crates.io:cw20-base", v).unwrap();
         let n = h.rng.below(14);
